@@ -31,6 +31,15 @@ RULE = (
     "with b as the user wrote it, each stage program's right-hand sides must be the supplied b / the column maximum or minimum of the "
     "judged matrix (exact, all cases), the caller's array must be unchanged after every call, and programs, lp_values and ranking are "
     "compared with a fresh instance given a fresh list (re-drawn until every stage program of the judged matrix is feasible and bounded). "
+    "REVISITED DECISION MATRIX (a fixed share of every run, own loop): ONE decision matrix (same values, dtype, objectives, solver; the same "
+    "DecisionMatrix object or one rebuilt from the same values; the same SIMUS instance or another one, any rank_by) is evaluated two "
+    "or three times in a row in one process with DIFFERENT right-hand sides - b=None, a TIGHT partially given b (None entries; every "
+    "supplied bound strictly below the column maximum / above the column minimum), another partially / fully given b, in the orders "
+    "none>tight, none>tight>other, tight>none, tight>tight', none>tight>none, tight>other>none - re-drawn until every stage program of "
+    "every evaluation is feasible and bounded and the optimum of some stage MOVES (second solver, > 1e-3 relative) between consecutive "
+    "evaluations; EVERY evaluation of the sequence is held to the LP clauses for ITS OWN b (exact right-hand sides of its programs, "
+    "lp_values by variable name, feasibility in exact arithmetic, optimum against the second solver, lp_objective, stage rows = the "
+    "normalised solution), the last one to all clauses including the proved checker. "
     "b reaches SIMUS and the model exactly as the user wrote it (None / python floats; rationals of those floats). Per case: (i) every PuLP problem object "
     "(sense, objective, each constraint's coefficients / sense / rhs, variable bounds) against the Lean model's stageLP, exactly; "
     "(ii) lp_values[i] against the value of the variable named x{i} read from the solved problem; (iii) every stage solution "
@@ -322,6 +331,92 @@ def history_case(rng, bmode=None, m=None):
     return case
 
 
+# ---- the SAME decision matrix evaluated several times in one process with DIFFERENT right-hand sides
+
+
+REVISIT_PATTERNS = [["none", "tight"], ["none", "tight", "other"], ["tight", "none"], ["tight", "tight"], ["none", "tight", "none"],
+                    ["tight", "other", "none"]]
+
+
+def _optima(case, b):
+    """the optimum of every stage program of the case's matrix under the right-hand side b (second solver); None when some
+    stage program is infeasible / unbounded (outside the quantifier)"""
+    sub = dict(case, b=b)
+    out = []
+    for z in range(len(case["objectives"])):
+        st, fun = _opt(oracle_lp(sub, z))
+        if st != 0:
+            return None
+        out.append(fun)
+    return out
+
+
+def _moved(f1, f2):
+    """some stage's optimum differs markedly between two right-hand sides: a solution of the one is not a solution of the other"""
+    return any(abs(a - b) > 1e-3 * max(1.0, abs(a), abs(b)) for a, b in zip(f1, f2))
+
+
+def _tight_b(rng, case):
+    """a partially given b (1 .. n-1 supplied entries, the others None) whose supplied bounds are all strictly TIGHTER than the
+    automatic ones: below the column maximum of a maximise criterion, above the column minimum of a minimise criterion"""
+    A, o, fam = case["matrix"], case["objectives"], case["family"]
+    n = len(o)
+    b = [None] * n
+    for j in rng.sample(range(n), rng.randint(1, n - 1)):
+        col = [r[j] for r in A]
+        lo, hi = min(col), max(col)
+        if fam == "int":
+            if lo < hi:
+                v = rng.randint(lo, hi - 1) + rng.choice(_FRACS)  # non-integer, strictly inside (min, max)
+            else:
+                v = hi - rng.choice(_FRACS) if o[j] == 1 else lo + rng.choice(_FRACS)
+        elif o[j] == 1:
+            v = hi * rng.choice([0.5, 0.75, 0.9, rng.uniform(0.3, 0.95)])
+        else:
+            v = lo * rng.choice([1.25, 1.5, 1.1, rng.uniform(1.05, 2.0)])
+        b[j] = float(v)
+    return b
+
+
+def revisit_case(rng, pattern=None, m=None):
+    """ONE decision matrix evaluated two or three times in a row with different right-hand sides (pattern: none = b=None, tight =
+    _tight_b, other = any partially / fully given b); the last evaluation is the case's own (b = case["b"]), the earlier ones
+    are case["revisit"]["prior"].  Re-drawn until every stage program of every evaluation is feasible and bounded and some
+    stage's optimum moves between consecutive evaluations."""
+    pattern = list(pattern or rng.choice(REVISIT_PATTERNS))
+    case, bs, ok = None, None, False
+    for _ in range(12):
+        case = one_case(rng, m=m, bmode="none", binding=False, n=rng.randint(3, 5) if rng.random() < 0.7 else None)
+        bs, prev, ok = [], None, True
+        for kind in pattern:
+            got = None
+            for _ in range(1 if kind == "none" else 25):
+                if kind == "none":
+                    b = None
+                elif kind == "tight":
+                    b = _tight_b(rng, case)
+                else:
+                    b = _draw_b(rng, case["matrix"], case["objectives"], case["family"], rng.choice(["partial", "full"]))
+                f = _optima(case, b)
+                if f is not None and (prev is None or _moved(prev, f)) and b not in bs[-1:]:
+                    got = (b, f)
+                    break
+            if got is None:
+                ok = False
+                bs.append(b)
+                continue
+            bs.append(got[0])
+            prev = got[1]
+        if ok:
+            break
+    same = rng.random() < 0.5
+    case["b"] = bs[-1]
+    case["bmode"] = "none" if bs[-1] is None else ("partial" if any(v is None for v in bs[-1]) else "full")
+    case["revisit"] = {"pattern": ">".join(pattern), "same_instance": same, "same_dm": rng.random() < 0.5, "optimum_moves": ok,
+                       "prior": [{"b": b, "rank_by": case["rank_by"] if same else rng.choice([1, 2])} for b in bs[:-1]]}
+    return case
+
+
 def _has_empty_stage(c):
     """problems with a stage whose only feasible/optimal point is the zero vector: exactly one minimise criterion (its stage
     has only upper bounds left), or a user bound of 0 on a maximise criterion"""
@@ -345,6 +440,9 @@ def gen(ctx):
     # the caller's own numpy b (None entries) reused over several evaluate() calls on different decision matrices
     for i in range(ctx.n(12, 120)):
         cases.append(history_case(rng, bmode="partial" if i % 4 else None))
+    # the same decision matrix evaluated again and again with different right-hand sides, every order in turn
+    for i in range(ctx.n(12, 120)):
+        cases.append(revisit_case(rng, pattern=REVISIT_PATTERNS[i % len(REVISIT_PATTERNS)]))
     # quota: at least 30 % of the cases have an empty stage (exactly one minimise criterion / zero bound)
     tries = 0
     while sum(1 for c in cases if _has_empty_stage(c)) < 0.3 * len(cases) and tries < 10 * N:
@@ -375,7 +473,8 @@ def search_gen(ctx):
     rng = ctx.rng
     return ([one_case(rng) for _ in range(120)] + [dup_case(rng, mode=DUP_MODES[i % len(DUP_MODES)]) for i in range(48)]
             + [zero_b_case(rng) for _ in range(12)] + [one_case(rng, n=rng.randint(3, 5), n_min=1) for _ in range(20)]
-            + [history_case(rng, bmode="partial" if i % 4 else None) for i in range(40)])
+            + [history_case(rng, bmode="partial" if i % 4 else None) for i in range(40)]
+            + [revisit_case(rng, pattern=REVISIT_PATTERNS[i % len(REVISIT_PATTERNS)]) for i in range(36)])
 
 
 # ----------------------------------------------------------------------------- the property's own LP (Python oracle)
@@ -506,6 +605,23 @@ def observe(case):
                 except Exception as e:
                     o["prior"].append({"err": G.err_name(e)})
                 o["prior"][-1]["b_after"] = [_entry(v) for v in b_arg]
+        rev = case.get("revisit")
+        if rev:
+            # the SAME decision matrix, evaluated before with OTHER right-hand sides (each b a fresh list, as the user writes it)
+            o["revisit"] = []
+            for step in rev["prior"]:
+                sub = dict(case, b=step["b"])
+                rec = {"hints": [highs(oracle_lp(sub, z)) for z in range(n)]}
+                dms = dm if rev["same_dm"] else skc.mkdm(np.array(case["matrix"], dtype=dt), list(case["objectives"]))
+                d = dec if rev["same_instance"] else SIMUS(rank_by=step["rank_by"])
+                try:
+                    rp = d.evaluate(dms, b=None if step["b"] is None else list(step["b"]))
+                    rec["stages"] = _stages(rp.e_, m)
+                    rec["stages_results"] = np.asarray(rp.e_["stages_results"], dtype=float).tolist()
+                except Exception as e:
+                    rec["err"] = G.err_name(e)
+                    rec["msg"] = str(e)[:200]
+                o["revisit"].append(rec)
         try:
             res = dec.evaluate(dm, b=b_arg)
         except Exception as e:
@@ -635,6 +751,78 @@ def _flat(x):
 # ----------------------------------------------------------------------------- judgement
 
 
+def _lp_clauses(sub, rec):
+    """the LP clauses of the property text for ONE evaluation (sub: matrix, objectives and the b of THAT evaluation; rec: its
+    observed stages, stage rows and the second solver's answers for the programs of that b), python oracle only:
+    [(what, expected, observed)]"""
+    out = []
+    m, n = len(sub["matrix"]), len(sub["objectives"])
+    in_dom = all(h["status"] == 0 for h in rec["hints"])
+    if "err" in rec:
+        if in_dom:
+            out.append((f"SIMUS raised {rec['err']} on a matrix whose stage programs are all feasible and bounded: {rec.get('msg')}", None, None))
+        return out
+    st = rec["stages"]
+    if len(st) != n:
+        return [("number of stages is not the number of criteria", n, len(st))]
+    # the bound of every other criterion is the supplied b, else the column maximum / minimum (exact)
+    for z in range(n):
+        pcs, ocs = st[z]["problem"]["constraints"], oracle_lp(sub, z)["constraints"]
+        if len(pcs) != len(ocs):
+            out.append((f"stage {z}: the stage program does not have one constraint per other criterion", len(ocs), len(pcs)))
+            return out
+        bad = next((r for r, (pc, oc) in enumerate(zip(pcs, ocs)) if -pc["constant"] != oc["rhs"]), None)
+        if bad is not None:
+            k = ocs[bad]["crit"]
+            given = sub["b"] is not None and sub["b"][k] is not None
+            out.append((f"stage {z}: the bound of criterion {k} in the stage program is not "
+                        + ("the supplied b" if given else "the column " + ("maximum" if sub["objectives"][k] == 1 else "minimum") + " of the decision matrix"),
+                        ocs[bad]["rhs"], -pcs[bad]["constant"]))
+            break
+    if not _all_optimal(rec):
+        if in_dom:
+            out.append(("a stage program that is feasible and bounded (HiGHS: optimal) is not reported Optimal by SIMUS", "Optimal", [s["status"] for s in st]))
+        return out
+    if not in_dom:
+        return out  # outside the quantifier
+    for z in range(n):
+        s = st[z]
+        if s["values"] != s["problem"]["by_name"]:
+            i = next(i for i in range(m) if s["values"][i] != s["problem"]["by_name"][i])
+            out.append((f"stage {z}: lp_values[{i}] is not the value of variable x{i} ({m} alternatives)", {"by_name": s["problem"]["by_name"]}, {"lp_values": s["values"]}))
+            break
+    for z in range(n):
+        lp, hint, s = oracle_lp(sub, z), rec["hints"][z], st[z]
+        x = [F(v) for v in s["values"]]
+        tol = F(1e-6) * F(_scale(lp, s["values"]))
+        viol = None
+        if any(v < -tol for v in x):
+            viol = {"negative variable": float(min(x))}
+        for con in lp["constraints"]:
+            lhs = sum(F(a) * v for a, v in zip(con["coef"], x))
+            rhs = F(con["rhs"])
+            if (con["rel"] == "le" and lhs > rhs + tol) or (con["rel"] == "ge" and lhs < rhs - tol):
+                viol = {"criterion": con["crit"], "rel": con["rel"], "lhs": float(lhs), "rhs": float(rhs), "tol": float(tol)}
+                break
+        if viol:
+            out.append((f"stage {z}: the reported solution violates a constraint of the stage program", viol, s["values"]))
+        val = sum(F(a) * v for a, v in zip(lp["objective"], x))
+        if abs(val - F(hint["fun"])) > tol:
+            better = (F(hint["fun"]) > val) if lp["sense"] == "max" else (F(hint["fun"]) < val)
+            if better or not viol:
+                out.append((f"stage {z}: the reported solution does not attain the optimum ({lp['sense']})",
+                            {"optimum (HiGHS)": hint["fun"], "tol": float(tol)}, {"c.x": float(val), "lp_objective": s["objective"]}))
+        if s["objective"] is None or abs(F(s["objective"]) - val) > tol:
+            out.append((f"stage {z}: lp_objective is not the objective value of lp_values", float(val), s["objective"]))
+        # the stage row is that solution normalised to sum one
+        tot = sum(x)
+        row = [v / tot for v in x] if tot != 0 else [Fraction(0)] * m
+        got = rec["stages_results"][z] if z < len(rec["stages_results"]) else []
+        if len(got) != m or any(not np.isfinite(a) or abs(F(a) - b) > F(1e-9) for a, b in zip(got, row)):
+            out.append((f"stage {z}: the stage row is not the stage solution normalised to sum one", [float(v) for v in row][:8], got[:8]))
+    return out
+
+
 def judge(case, obs, replies):
     out = []
     m, n = len(case["matrix"]), len(case["objectives"])
@@ -656,6 +844,19 @@ def judge(case, obs, replies):
                 prop(f"the caller's b array ({hist['b_as']}) was modified by evaluate() ({where}, "
                      f"{'same' if hist['same_instance'] else 'another'} SIMUS instance): unspecified entries are no longer unspecified",
                      case["b"], after)
+                break
+
+    # ---- PROPERTY (the same decision matrix evaluated several times with different b): every evaluation of the sequence
+    # solves the programs of ITS OWN b
+    rev = case.get("revisit")
+    if rev:
+        bs = [st["b"] for st in rev["prior"]] + [case["b"]]
+        for i, (step, rec) in enumerate(zip(rev["prior"], obs.get("revisit", []))):
+            found = _lp_clauses(dict(case, b=step["b"]), rec)
+            for what, exp, got in found[:2]:
+                prop(f"evaluation {i + 1} of {len(bs)} of the same decision matrix with different right-hand sides (b of this evaluation: {step['b']}; "
+                     f"b of the evaluations before it: {bs[:i]}; {'same' if rev['same_instance'] else 'another'} SIMUS instance): " + what, exp, got)
+            if found:
                 break
 
     if "err" in obs:
@@ -704,7 +905,8 @@ def judge(case, obs, replies):
             given = case["b"] is not None and case["b"][k] is not None
             prop(f"stage {z}: the bound of criterion {k} in the stage program is not "
                  + ("the supplied b" if given else "the column " + ("maximum" if case["objectives"][k] == 1 else "minimum") + " of the decision matrix")
-                 + (" (b reused from an earlier evaluation)" if hist else ""),
+                 + (" (b reused from an earlier evaluation)" if hist else "")
+                 + (f" (the same decision matrix was evaluated before with b = {[st['b'] for st in rev['prior']]})" if rev else ""),
                  ocs[bad]["rhs"], -pcs[bad]["constant"])
             break
 
@@ -922,6 +1124,15 @@ def tags(case, obs):
         t.append("history:%d-earlier-evaluations:%s-instance" % (len(h["prior"]), "same" if h["same_instance"] else "another"))
         if any("err" in st or any(x != "Optimal" for x in st.get("status", [])) for st in obs.get("prior", [])):
             t.append("history:an-earlier-evaluation-not-optimal")
+    if "revisit" in case:
+        r = case["revisit"]
+        t.append("revisit:same-matrix-different-b:" + r["pattern"])
+        t.append("revisit:%d-evaluations:%s-instance:%s" % (len(r["prior"]) + 1, "same" if r["same_instance"] else "another",
+                                                           "same-dm-object" if r["same_dm"] else "dm-rebuilt-from-the-same-values"))
+        if r.get("optimum_moves"):
+            t.append("revisit:a-stage-optimum-moves-between-consecutive-evaluations")
+        if any("err" in rec or not _all_optimal(rec) for rec in obs.get("revisit", [])):
+            t.append("revisit:an-earlier-evaluation-not-optimal")
     if case["objectives"].count(-1) == 1:
         t.append("exactly-one-min")
     if _is_int_partial(case):
